@@ -42,6 +42,8 @@ def heap_sort(key):
         return z3.ArraySort(IntS, IntS)
     if k == "dkeys":
         return z3.ArraySort(IntS, z3.ArraySort(IntS, FAM_SORT[key[1]]))
+    if k == "dpos":        # ghost inverse of the order array: key -> position
+        return z3.ArraySort(IntS, z3.ArraySort(FAM_SORT[key[1]], IntS))
     if k == "shas":
         return z3.ArraySort(IntS, z3.ArraySort(FAM_SORT[key[1]], BoolS))
     if k in ("ipos", "sn"):
